@@ -297,7 +297,8 @@ def model_traces(name, cases):
     (paused, mid, [status], [loaded_p or None]) or None where the model rejects the step."""
     exprs = ["(trace_codes %d [%s])" % (n, "; ".join(coq_ev(e) for e in evs)) for n, evs in cases]
     # NB shard size: vlib.coq_eval reads coqc's stdout only after exit, so one shard's output must stay below the pipe buffer
-    vals = vlib.coq_eval(name, PREAMBLE, exprs, shard=120)
+    per = max((len(evs) * (10 + 3 * n) + 80 for n, evs in cases), default=100)
+    vals = vlib.coq_eval(name, PREAMBLE, exprs, shard=max(8, min(150, 36000 // per)))
     code = {0: "idle", 1: "reg", 2: "loaded", 3: "loaded", 4: "blocked", 5: "passed"}
     res = []
     for v in vals:
